@@ -16,11 +16,11 @@
 (***************************************************************************)
 EXTENDS Integers, Sequences, FiniteSets, TLC
 
-CONSTANTS MaxLeaves, MaxDepth, LeafKinds,
+CONSTANTS MaxLeaves, MaxDepth, LeafKinds, FreqMode,
           NestedOpenIsOpen   \* TRUE: a parallel connection whose branches are all open is itself an open
                              \* branch (the repaired library); FALSE: it raises (the pinned tree)
 
-FreqVectors == {<<1>>, <<2>>, <<1, 2>>, <<2, 1>>}      \* angular frequencies; the harness uses f = w / (2 pi)
+FreqVectors == IF FreqMode = "one" THEN {<<1>>} ELSE {<<1>>, <<2>>, <<1, 2>>, <<2, 1>>}      \* angular frequencies; the harness uses f = w / (2 pi)
 
 VARIABLES stack, wvec, impl, law
 vars == <<stack, wvec, impl, law>>
